@@ -1,7 +1,215 @@
 (* Dispatcher of the model area: time zones (C11 C12 C13).
    [dispatch_tz f a] = Some result when [f] names a function of this area.  Definitions only. *)
-Require Import Lib.Base.
+Require Import Lib.Base Model.Params Model.TzRules Model.TzCache Model.TzGen Model.TzId Gen.Gen_tz.
 From Coq Require Import String.
 Local Open Scope string_scope.
 
-Definition dispatch_tz (f : list N) (a : jv) : option jv := None.
+Definition tzis (f : list N) (name : string) : bool := str_eqb f (s2l name).
+
+Definition tz_jres {A} (f : A -> jv) (r : res A) : jv :=
+  match r with
+  | Ok a => f a
+  | ValueErr => jerr "ValueError"
+  | Escape k => jtag "err" [JS k]
+  | Unsup => junsupported
+  end.
+
+Fixpoint jv_Zs (l : list jv) : option (list Z) :=
+  match l with
+  | [] => Some []
+  | JZ z :: r => option_map (cons z) (jv_Zs r)
+  | _ => None
+  end.
+
+(* ------------------------------------------------------------------ C12 *)
+Definition obs_of (v : jv) : option obs :=
+  match v with
+  | JL [JZ d; JL ons; JZ f; JZ t; JL nm; JS synth] =>
+      match jv_Zs ons, (match nm with [] => Some None | [JS n] => Some (Some n) | _ => None end) with
+      | Some ons', Some nm' => Some (mkObs (negb (d =? 0)%Z) ons' f t nm' synth)
+      | _, _ => None
+      end
+  | _ => None
+  end.
+Fixpoint vtz_of (l : list jv) : option vtz :=
+  match l with
+  | [] => Some []
+  | x :: r => match obs_of x, vtz_of r with Some o, Some r' => Some (o :: r') | _, _ => None end
+  end.
+
+Definition jinfo (i : Z * Z * list N) : jv := let '(o, d, n) := i in JL [JZ o; JZ d; JS n].
+Definition jrfc (r : option (Z * option (list N) * bool)) : jv :=
+  match r with
+  | None => jtag "none" []
+  | Some (o, n, d) => JL [JZ o; (match n with Some n' => JL [JS n'] | None => JL [] end); jbool d]
+  end.
+
+Definition dispatch_c12 (f : list N) (a : jv) : option jv :=
+  if tzis f "tz_get_transitions" then
+    Some match a with
+         | JL l => match vtz_of l with
+                   | Some v => tz_jres (fun ti : list Z * list (Z * Z * list N) =>
+                                          JL [JL (map JZ (fst ti)); JL (map jinfo (snd ti))]) (get_transitions v)
+                   | None => junsupported end
+         | _ => junsupported end
+  else if tzis f "tz_pytz_path" then
+    Some match a with
+         | JL [JL l; JL ts] =>
+             match vtz_of l, jv_Zs ts with
+             | Some v, Some ts' =>
+                 match pytz_create v with
+                 | Ok ti => JL (map (fun t => tz_jres jinfo (pytz_fromutc (fst ti) (snd ti) t)) ts')
+                 | r => tz_jres (fun _ => junsupported) r
+                 end
+             | _, _ => junsupported end
+         | _ => junsupported end
+  else if tzis f "tz_rfc_offset" then
+    Some match a with
+         | JL [JL l; JL ts] =>
+             match vtz_of l, jv_Zs ts with
+             | Some v, Some ts' => JL (map (fun t => jrfc (rfc_offset v t)) ts')
+             | _, _ => junsupported end
+         | _ => junsupported end
+  else if tzis f "tz_guard" then
+    Some match a with
+         | JL l => match vtz_of l with
+                   | Some v => JL [jbool (whole_minutes v); jbool (order_ok v); jbool (names_ok v); jbool (has_std v);
+                                   match first_onset v with Some t0 => JL [JZ t0] | None => JL [] end]
+                   | None => junsupported end
+         | _ => junsupported end
+  else None.
+
+(* the cache: provider = [known ids] [[id, zone number] ...], windows = [[name, olson] ...],
+   calendars = lists of ["def", id, number] / ["use", id] *)
+Fixpoint assoc_str {A} (l : list (list N * A)) (k : list N) : option A :=
+  match l with [] => None | (k', a) :: r => if str_eqb k' k then Some a else assoc_str r k end.
+Fixpoint pairs_sz (l : list jv) : option (list (list N * Z)) :=
+  match l with
+  | [] => Some []
+  | JL [JS k; JZ z] :: r => option_map (cons (k, z)) (pairs_sz r)
+  | _ => None
+  end.
+Fixpoint pairs_ss (l : list jv) : option (list (list N * list N)) :=
+  match l with
+  | [] => Some []
+  | JL [JS k; JS z] :: r => option_map (cons (k, z)) (pairs_ss r)
+  | _ => None
+  end.
+Fixpoint evs_of (l : list jv) : option (list (ev Z)) :=
+  match l with
+  | [] => Some []
+  | JL [JS k; JS id; JZ d] :: r => if tzis k "def" then option_map (cons (Def id d)) (evs_of r) else None
+  | JL [JS k; JS id] :: r => if tzis k "use" then option_map (cons (Use id)) (evs_of r) else None
+  | _ => None
+  end.
+Fixpoint cals_of (l : list jv) : option (list (list (ev Z))) :=
+  match l with
+  | [] => Some []
+  | JL c :: r => match evs_of c, cals_of r with Some c', Some r' => Some (c' :: r') | _, _ => None end
+  | _ => None
+  end.
+Definition jtzres (r : option (tzres Z Z)) : jv :=
+  match r with
+  | None => jtag "none" []
+  | Some (RProv z) => jtag "prov" [JZ z]
+  | Some (RCustom d) => jtag "custom" [JZ d]
+  end.
+
+Definition dispatch_cache (f : list N) (a : jv) : option jv :=
+  if tzis f "tz_cache_run" then
+    Some match a with
+         | JL [JL known; JL lookups; JL wins; JL cals] =>
+             match jv_strs known, pairs_sz lookups, pairs_ss wins, cals_of cals with
+             | Some kn, Some lk, Some ws, Some cs =>
+                 let P := mkProvider Z (fun id => mem_str id kn) (assoc_str lk) in
+                 JL (map (fun c => JL (map jtzres c)) (snd (run_cals Z Z P (assoc_str ws) [] cs)))
+             | _, _, _, _ => junsupported
+             end
+         | _ => junsupported end
+  else None.
+
+(* ------------------------------------------------------------------ C13 *)
+Definition tabval_of (l : list jv) : option (Z * Z * list N) :=
+  match l with [JZ o; JZ d; JS n] => Some (o, d, n) | _ => None end.
+Fixpoint ztab_of (l : list jv) : option ztab :=
+  match l with
+  | [] => Some []
+  | JL (JZ b :: v) :: r =>
+      match tabval_of v, ztab_of r with Some v', Some r' => Some ((b, v') :: r') | _, _ => None end
+  | _ => None
+  end.
+Definition jgobs (g : gobs) : jv :=
+  JL [jbool (g_std g); JZ (g_from g); JZ (g_to g); JS (g_name g); JZ (g_dtstart g); JL (map JZ (g_rdates g))].
+
+Definition dispatch_c13 (f : list N) (a : jv) : option jv :=
+  if tzis f "tz_from_tzinfo" then
+    Some match a with
+         | JL [JL tab; JL dflt; JZ pytz_axis; JZ H; JZ fuel; JZ first; JZ last; JZ last_wall] =>
+             match ztab_of tab, tabval_of dflt with
+             | Some tab', Some d =>
+                 tz_jres (fun g => JL (map jgobs g))
+                   (from_tzinfo_tab tab' d (negb (pytz_axis =? 0)%Z) H (Z.to_nat fuel) first last last_wall)
+             | _, _ => junsupported
+             end
+         | _ => junsupported end
+  else None.
+
+(* ------------------------------------------------------------------ C11 *)
+(* a tzinfo on the wire: [[ids...], [] | [tzname]];  a date-time: [wall, tzinfo, offset] or [wall] (floating) *)
+Definition wtz : Type := (list (list N) * option (list N))%type.
+Definition wtz_of (v : jv) : option wtz :=
+  match v with
+  | JL [JL ids; JL nm] =>
+      match jv_strs ids, (match nm with [] => Some None | [JS n] => Some (Some n) | _ => None end) with
+      | Some ids', Some nm' => Some (ids', nm') | _, _ => None end
+  | _ => None
+  end.
+Definition wdt_of (v : jv) : option (dt wtz) :=
+  match v with
+  | JL [JZ w] => Some (mkDt wtz w None)
+  | JL [JZ w; t; JZ o] => match wtz_of t with Some t' => Some (mkDt wtz w (Some (t', o))) | None => None end
+  | _ => None
+  end.
+Fixpoint wdts_of (l : list jv) : option (list (dt wtz)) :=
+  match l with
+  | [] => Some []
+  | x :: r => match wdt_of x, wdts_of r with Some d, Some r' => Some (d :: r') | _, _ => None end
+  end.
+Definition jopt_str (o : option (list N)) : jv := match o with Some s => JL [JS s] | None => JL [] end.
+Definition jwire (w : wire) : jv := JL [JZ (w_wall w); jbool (w_z w); jopt_str (w_tzid w)].
+Definition wtzids (t : wtz) := fst t.
+Definition wtzname (t : wtz) (_ : Z) := snd t.
+(* the UTC zone of the wire provider *)
+Definition wP : provider wtz := mkProv wtz (fun _ => None) (fun z w => mkDt wtz w (Some (z, 0%Z))) (([UTCs], None), 0%Z).
+
+Definition dispatch_c11 (f : list N) (a : jv) : option jv :=
+  if tzis f "tzid_to_ical" then
+    Some match wdt_of a with Some d => jwire (vdatetime_to_ical wtz wtzids wtzname d) | None => junsupported end
+  else if tzis f "tzid_add_to_ical" then
+    Some match a with
+         | JL [JS lname; d] =>
+             match wdt_of d with
+             | Some d' => jwire (vdatetime_to_ical wtz wtzids wtzname (add_value wtz wP lname d'))
+             | None => junsupported end
+         | _ => junsupported end
+  else if tzis f "tzid_list_to_ical" then
+    Some match a with
+         | JL l => match wdts_of l with
+                   | Some ds => let r := list_to_ical wtz wtzids wtzname ds in JL [jopt_str (fst r); JL (map jwire (snd r))]
+                   | None => junsupported end
+         | _ => junsupported end
+  else if tzis f "tzid_period_to_ical" then
+    Some match a with
+         | JL [s; e] => match wdt_of s, wdt_of e with
+                        | Some s', Some e' => let r := period_to_ical wtz wtzids wtzname s' e' in
+                                              JL [jopt_str (fst r); jwire (fst (snd r)); jwire (snd (snd r))]
+                        | _, _ => junsupported end
+         | _ => junsupported end
+  else None.
+
+Definition dispatch_tz (f : list N) (a : jv) : option jv :=
+  match dispatch_c11 f a with Some r => Some r | None =>
+  match dispatch_c12 f a with
+  | Some r => Some r
+  | None => match dispatch_cache f a with Some r => Some r | None => dispatch_c13 f a end
+  end end.
